@@ -511,11 +511,12 @@ theorem replayF_removed (ps : AL) (f : F) (k : Nat) :
   | cons p ps ih =>
     simp only [List.map_cons, replayF, List.foldl_cons] at ih ⊢
     rw [ih]
-    simp only [keys, List.map_cons, List.mem_cons, Note.applyF]
-    by_cases h1 : k ∈ List.map (fun x => x.1) ps
+    have hkc : keys (p :: ps) = p.1 :: keys ps := rfl
+    simp only [hkc, List.mem_cons, Note.applyF]
+    by_cases h1 : k ∈ keys ps
     · simp [h1]
     · by_cases h2 : k = p.1
-      · subst h2; simp; rw [if_neg h1]
+      · simp [h2]
       · simp [h1, h2]
 
 theorem setOp_new_look (m : Nat) (l : AL) (items : List (Nat × Nat)) (k : Nat) :
@@ -631,5 +632,372 @@ theorem perm_of_look_eq (l1 l2 : AL) (h1 : NodupKeys l1) (h2 : NodupKeys l2) (he
   rw [List.perm_ext_iff_of_nodup n1 n2]
   intro ⟨k, v⟩
   rw [look_of_mem l1 h1, look_of_mem l2 h2, he]
+
+/-! ## phases of the add/update loop -/
+
+theorem loopPhases_flatten (isMap : Bool) (ns : List Note) (tl : List (List Note)) :
+    (loopPhases isMap ns ++ tl).flatten = ns ++ tl.flatten := by
+  cases isMap <;> simp [loopPhases, flatten_ordered]
+
+theorem loopPhases_valid (isMap : Bool) (m : Nat) (c : Call) (l : AL) (items : List (Nat × Nat))
+    (tl : List (List Note)) (harg : argOk isMap items = true)
+    (hc : ∀ p ∈ items, c.hasItem p.1 p.2 = true)
+    (ht : Valid m c (look (appendLoop m l items).1) tl) :
+    Valid m c (look l) (loopPhases isMap (appendLoop m l items).2 ++ tl) := by
+  have hv := appendLoop_valid m c l items tl hc ht
+  cases isMap with
+  | false => simpa [loopPhases] using hv
+  | true =>
+    simp only [argOk, Bool.not_true, Bool.false_or, decide_eq_true_eq] at harg
+    have hd : ((appendLoop m l items).2.map Note.key).Nodup := (appendLoop_note_keys m l items).nodup harg
+    simpa [loopPhases] using valid_par_of_ordered m c _ tl (look l) hd hv
+
+theorem hasItem_set (items : List (Nat × Nat)) : ∀ p ∈ items, (Call.set items).hasItem p.1 p.2 = true := by
+  intro p hp; simp [Call.hasItem, hp]
+
+theorem hasItem_append (items : List (Nat × Nat)) : ∀ p ∈ items, (Call.append items).hasItem p.1 p.2 = true := by
+  intro p hp; simp [Call.hasItem, hp]
+
+theorem mayRemove_remove (ks : List Nat) : ∀ k ∈ ks, (Call.remove ks).mayRemove k = true := by
+  intro k hk; simp [Call.mayRemove, hk]
+
+theorem noteOf_key (k v : Nat) (a r : Bool) (n : Note) (h : noteOf k v a r = some n) : n.key = k := by
+  cases a <;> cases r <;> simp [noteOf] at h <;> subst h <;> rfl
+
+theorem flatten_of_all_empty (ps : List (List Note)) (h : ps.all (·.isEmpty) = true) : ps.flatten = [] := by
+  induction ps with
+  | nil => rfl
+  | cons p ps ih =>
+    simp only [List.all_cons, Bool.and_eq_true, List.isEmpty_iff] at h
+    simp [h.1, ih h.2]
+
+/-! ## model invariant and monitor simulation -/
+
+structure Inv (s : St) : Prop where
+  /-- **nodup_keys**: one value per key -/
+  nodup : NodupKeys s.vals
+  dead : s.live = false → s.busy = none
+
+theorem init_inv : Inv ({} : St) := ⟨by simp [NodupKeys, keys], fun _ => rfl⟩
+
+theorem step_inv (s : St) (o : Obs) (s' : St) (hi : Inv s) (hs : step s o = some s') : Inv s' := by
+  cases o with
+  | new isMap mode items =>
+    simp only [step] at hs; split at hs <;> simp at hs; subst hs
+    exact ⟨initial_nodup items, by intro h; simp at h⟩
+  | callSet items =>
+    simp only [step] at hs; split at hs <;> simp at hs; subst hs
+    rename_i h
+    exact ⟨setOp_nodup _ _ _ hi.nodup, by intro hl; simp [h.1] at hl⟩
+  | callAppend items =>
+    simp only [step] at hs; split at hs <;> simp at hs; subst hs
+    rename_i h
+    exact ⟨appendLoop_nodup _ _ _ hi.nodup, by intro hl; simp [h.1] at hl⟩
+  | callRmVals items =>
+    simp only [step] at hs; split at hs <;> simp at hs; subst hs
+    rename_i h
+    exact ⟨removeLoop_nodup _ _ hi.nodup, by intro hl; simp [h.1] at hl⟩
+  | callRmKeys ks =>
+    simp only [step] at hs; split at hs <;> simp at hs; subst hs
+    rename_i h
+    exact ⟨removeLoop_nodup _ _ hi.nodup, by intro hl; simp [h.1] at hl⟩
+  | chg k v a r =>
+    simp only [step] at hs
+    split at hs
+    · rename_i ps n hb hn
+      split at hs
+      · simp only [Option.some.injEq] at hs; subst hs
+        refine ⟨hi.nodup, ?_⟩
+        intro hl; have := hi.dead hl; rw [hb] at this; cases this
+      · simp at hs
+    · simp at hs
+  | ret =>
+    simp only [step] at hs
+    split at hs
+    · split at hs
+      · simp only [Option.some.injEq] at hs; subst hs; exact ⟨hi.nodup, fun _ => rfl⟩
+      · simp at hs
+    · simp at hs
+  | keys ks => simp only [step] at hs; split at hs <;> simp at hs; subst hs; exact hi
+  | vals vs => simp only [step] at hs; split at hs <;> simp at hs; subst hs; exact hi
+
+theorem reachable_inv (es : List Obs) (s : St) (h : model.run model.init es = some s) : Inv s :=
+  model.run_invariant Inv step_inv _ s es init_inv h
+
+def Rel (s : St) (ms : UniqM) : Prop :=
+  ms.live = s.live ∧ Inv s ∧ (s.live = true → ms.mode = s.mode ∧ NodupKeys ms.cur ∧
+    match s.busy with
+    | none => ms.call = none ∧ look ms.cur = look s.vals
+    | some ps => ∃ c, ms.call = some c ∧ Valid s.mode c (look ms.cur) ps ∧
+        replayF ps.flatten (look ms.cur) = look s.vals ∧ FinalP s.mode c (look s.vals))
+
+/-- starting a call: the owed notifications are legitimate, replay to the new contents, and the new
+contents pass the final check -/
+theorem start_rel (s : St) (ms : UniqM) (c : Call) (newVals : AL) (phases : List (List Note))
+    (hR : Rel s ms) (hl : s.live = true) (hidle : s.busy = none)
+    (hv : Valid s.mode c (look s.vals) phases)
+    (hrep : replayF phases.flatten (look s.vals) = look newVals)
+    (hf : FinalP s.mode c (look newVals)) (hn : NodupKeys newVals) :
+    ∃ ms', startCall ms c = some ms' ∧ Rel { s with vals := newVals, busy := some phases } ms' := by
+  obtain ⟨hlive, hi, hrest⟩ := hR
+  obtain ⟨hm, hnd, hb⟩ := hrest hl
+  rw [hidle] at hb
+  obtain ⟨hcall, hlook⟩ := hb
+  have hml : ms.live = true := by rw [hlive, hl]
+  refine ⟨{ ms with call := some c }, by simp [startCall, hml, hcall], hlive,
+    ⟨hn, by intro h; simp [hl] at h⟩, fun _ => ⟨hm, hnd, c, rfl, ?_, ?_, hf⟩⟩
+  · simpa [hlook] using hv
+  · simpa [hlook] using hrep
+
+theorem live_of_step (s : St) (o : Obs) (s' : St) (hi : Inv s) (hs : step s o = some s')
+    (hn : ∀ a b c, o ≠ .new a b c) : s.live = true := by
+  cases hl : s.live with
+  | true => rfl
+  | false =>
+    have hb := hi.dead hl
+    cases o <;> simp [step, hb, hl] at hs
+    exact absurd rfl (hn _ _ _)
+
+theorem sim_step (s : St) (o : Obs) (s' : St) (ms : UniqM) (hR : Rel s ms) (hs : step s o = some s') :
+    ∃ ms', monC20Unique.step ms o = some ms' ∧ Rel s' ms' := by
+  have hR0 := hR
+  obtain ⟨hlive, hi, hrest⟩ := hR
+  have hi' : Inv s' := step_inv s o s' hi hs
+  by_cases hnew : ∃ a b c, o = .new a b c
+  · obtain ⟨isMap, mode, items, rfl⟩ := hnew
+    simp only [step] at hs; split at hs <;> simp at hs; subst hs
+    exact ⟨{ live := true, mode := mode, cur := initial items }, rfl, rfl, hi',
+      fun _ => ⟨rfl, initial_nodup items, rfl, rfl⟩⟩
+  · have hl : s.live = true := live_of_step s o s' hi hs (fun a b c h => hnew ⟨a, b, c, h⟩)
+    obtain ⟨hm, hnd, hb⟩ := hrest hl
+    have hml : ms.live = true := by rw [hlive, hl]
+    cases o with
+    | new a b c => exact absurd ⟨a, b, c, rfl⟩ hnew
+    | callSet items =>
+      simp only [step] at hs; split at hs <;> simp at hs; subst hs
+      rename_i h
+      have hval : Valid s.mode (.set items) (look s.vals)
+          (loopPhases s.isMap (setOp s.mode s.vals items).2.1 ++ [(setOp s.mode s.vals items).2.2]) :=
+        loopPhases_valid s.isMap s.mode (.set items) s.vals items _ h.2.2 (hasItem_set items)
+          (setOp_gone_valid s.mode s.vals items hi.nodup)
+      have hrep : replayF (loopPhases s.isMap (setOp s.mode s.vals items).2.1 ++
+          [(setOp s.mode s.vals items).2.2]).flatten (look s.vals) = look (setOp s.mode s.vals items).1 := by
+        rw [loopPhases_flatten]
+        simp only [List.flatten_cons, List.flatten_nil, List.append_nil, replayF_append]
+        have : replayF (setOp s.mode s.vals items).2.1 (look s.vals) = look (appendLoop s.mode s.vals items).1 := by
+          rw [← look_replay]; simp only [setOp]; rw [appendLoop_replay]
+        rw [this]; exact setOp_gone_replay s.mode s.vals items
+      exact start_rel s ms (.set items) _ _ hR0 hl h.2.1 hval hrep (final_set _ _ _) (setOp_nodup _ _ _ hi.nodup)
+    | callAppend items =>
+      simp only [step] at hs; split at hs <;> simp at hs; subst hs
+      rename_i h
+      have hval : Valid s.mode (.append items) (look s.vals)
+          (loopPhases s.isMap (appendLoop s.mode s.vals items).2 ++ []) :=
+        loopPhases_valid s.isMap s.mode (.append items) s.vals items [] h.2.2 (hasItem_append items) trivial
+      have hrep : replayF (loopPhases s.isMap (appendLoop s.mode s.vals items).2 ++ []).flatten (look s.vals)
+          = look (appendLoop s.mode s.vals items).1 := by
+        rw [loopPhases_flatten]; simp only [List.flatten_nil, List.append_nil]
+        rw [← look_replay, appendLoop_replay]
+      simp only [List.append_nil] at hval hrep
+      exact start_rel s ms (.append items) _ _ hR0 hl h.2.1 hval hrep (final_append _ _ _)
+        (appendLoop_nodup _ _ _ hi.nodup)
+    | callRmVals items =>
+      simp only [step] at hs; split at hs <;> simp at hs; subst hs
+      rename_i h
+      have hval := removeLoop_valid s.mode (.remove (items.map (·.1))) s.vals (items.map (·.1)) []
+        (mayRemove_remove _) trivial
+      have hrep : replayF (ordered (removeLoop s.vals (items.map (·.1))).2).flatten (look s.vals)
+          = look (removeLoop s.vals (items.map (·.1))).1 := by
+        rw [flatten_ordered, ← look_replay, removeLoop_replay]
+      simp only [List.append_nil] at hval
+      exact start_rel s ms (.remove (items.map (·.1))) _ _ hR0 hl h.2.1 hval hrep (final_remove _ _ _)
+        (removeLoop_nodup _ _ hi.nodup)
+    | callRmKeys ks =>
+      simp only [step] at hs; split at hs <;> simp at hs; subst hs
+      rename_i h
+      have hval := removeLoop_valid s.mode (.remove ks) s.vals ks [] (mayRemove_remove _) trivial
+      have hrep : replayF (ordered (removeLoop s.vals ks).2).flatten (look s.vals) = look (removeLoop s.vals ks).1 := by
+        rw [flatten_ordered, ← look_replay, removeLoop_replay]
+      simp only [List.append_nil] at hval
+      exact start_rel s ms (.remove ks) _ _ hR0 hl h.2 hval hrep (final_remove _ _ _)
+        (removeLoop_nodup _ _ hi.nodup)
+    | chg k v a r =>
+      simp only [step] at hs
+      split at hs
+      · rename_i ps n hbusy hnote
+        split at hs
+        · rename_i ps' hcons
+          simp only [Option.some.injEq] at hs; subst hs
+          rw [hbusy] at hb
+          obtain ⟨c, hcall, hval, hrep, hfin⟩ := hb
+          obtain ⟨hok, hval', hrep'⟩ := consume_valid s.mode c n ps ps' (look ms.cur) hval hcons
+          have hk := noteOf_key k v a r n hnote
+          refine ⟨{ ms with cur := n.apply ms.cur }, ?_, hlive, hi', fun _ => ⟨hm, nodup_apply n _ hnd, c, hcall, ?_, ?_, hfin⟩⟩
+          · simp only [noteOkF, hk] at hok
+            simp [monC20Unique, hml, hcall, hnote, hm, hok]
+          · simpa [look_apply] using hval'
+          · simpa [look_apply, hrep'] using hrep
+        · simp at hs
+      · simp at hs
+    | ret =>
+      simp only [step] at hs
+      split at hs
+      · rename_i ps hbusy
+        split at hs
+        · rename_i hall
+          simp only [Option.some.injEq] at hs; subst hs
+          rw [hbusy] at hb
+          obtain ⟨c, hcall, _, hrep, hfin⟩ := hb
+          rw [flatten_of_all_empty ps hall] at hrep
+          have hlook : look ms.cur = look s.vals := by simpa [replayF] using hrep
+          have hf : finalOk ms.mode c ms.cur = true := by rw [finalOk_iff, hlook, hm]; exact hfin
+          exact ⟨{ ms with call := none }, by simp [monC20Unique, hml, hcall, hf], hlive, hi',
+            fun _ => ⟨hm, hnd, rfl, hlook⟩⟩
+        · simp at hs
+      · simp at hs
+    | keys ks =>
+      simp only [step] at hs; split at hs <;> simp at hs; subst hs
+      rename_i h
+      rw [h.2.1] at hb
+      obtain ⟨hcall, hlook⟩ := hb
+      have hp := perm_of_look_eq ms.cur s.vals hnd hi.nodup hlook
+      have : ks.Perm (keys ms.cur) := (List.isPerm_iff.mp h.2.2).trans (hp.map _).symm
+      exact ⟨ms, by simp [monC20Unique, hml, hcall, List.isPerm_iff.mpr this], hR0⟩
+    | vals vs =>
+      simp only [step] at hs; split at hs <;> simp at hs; subst hs
+      rename_i h
+      rw [h.2.1] at hb
+      obtain ⟨hcall, hlook⟩ := hb
+      have hp := perm_of_look_eq ms.cur s.vals hnd hi.nodup hlook
+      have : vs.Perm (ms.cur.map (·.2)) := (List.isPerm_iff.mp h.2.2).trans (hp.map _).symm
+      exact ⟨ms, by simp [monC20Unique, hml, hcall, List.isPerm_iff.mpr this], hR0⟩
+
+/-! ## end-to-end: the notifications of one call, in any accepted order, replay to the new contents -/
+
+def Note.toObs : Note → Obs
+  | .added k v => .chg k v true false
+  | .updated k v => .chg k v false false
+  | .removed k v => .chg k v false true
+
+theorem noteOf_toObs (n : Note) :
+    ∃ k v a r, n.toObs = .chg k v a r ∧ noteOf k v a r = some n := by
+  cases n <;> exact ⟨_, _, _, _, rfl, rfl⟩
+
+theorem sim_run (s : St) (ms : UniqM) (es : List Obs) (s' : St) (hR : Rel s ms)
+    (hr : model.run s es = some s') : ∃ ms', monC20Unique.run ms es = some ms' ∧ Rel s' ms' := by
+  induction es generalizing s ms with
+  | nil => simp [OLTS.run] at hr; subst hr; exact ⟨ms, rfl, hR⟩
+  | cons e es ih =>
+    simp only [OLTS.run] at hr
+    cases hst : model.step s e with
+    | none => simp [hst] at hr
+    | some s1 =>
+      simp [hst] at hr
+      obtain ⟨ms1, hm1, hR1⟩ := sim_step s e s1 ms hR hst
+      obtain ⟨ms', hm', hR'⟩ := ih s1 ms1 hR1 hr
+      exact ⟨ms', by simp [ObsMonitor.run, hm1, hm'], hR'⟩
+
+/-- the monitor's copy after a block of notifications is the replay of that block -/
+theorem mon_run_notes (ms ms' : UniqM) (ns : List Note) (hl : ms.live = true)
+    (hr : monC20Unique.run ms (ns.map Note.toObs) = some ms') :
+    ms'.cur = replay ns ms.cur ∧ ms'.live = true := by
+  induction ns generalizing ms with
+  | nil => simp [ObsMonitor.run] at hr; subst hr; exact ⟨rfl, hl⟩
+  | cons n ns ih =>
+    simp only [List.map_cons, ObsMonitor.run] at hr
+    obtain ⟨k, v, a, r, ho, hn⟩ := noteOf_toObs n
+    cases hst : monC20Unique.step ms n.toObs with
+    | none => simp [hst] at hr
+    | some ms1 =>
+      simp [hst] at hr
+      have : ms1.cur = n.apply ms.cur ∧ ms1.live = true := by
+        rw [ho] at hst
+        simp only [monC20Unique, hl, Bool.not_true, Bool.false_eq_true, if_false, hn] at hst
+        split at hst
+        · rename_i c n' hc hn'
+          simp only [Option.some.injEq] at hn'; subst hn'
+          split at hst
+          · simp only [Option.some.injEq] at hst; subst hst; exact ⟨rfl, rfl⟩
+          · simp at hst
+        · simp at hst
+      obtain ⟨h1, h2⟩ := ih ms1 this.2 hr
+      exact ⟨by rw [h1, this.1]; rfl, h2⟩
+
+/-- a line that starts a call leaves the listener's copy alone -/
+theorem call_keeps_cur (s : St) (o : Obs) (s1 : St) (ms ms1 : UniqM) (hidle : s.busy = none)
+    (hb : s1.busy ≠ none) (h1 : step s o = some s1) (hm : monC20Unique.step ms o = some ms1) :
+    ms1.cur = ms.cur := by
+  cases o with
+  | new a b c => simp only [step] at h1; split at h1 <;> simp at h1; subst h1; simp at hb
+  | callSet items | callAppend items | callRmVals items | callRmKeys ks =>
+    simp only [monC20Unique, startCall] at hm
+    split at hm
+    · simp at hm; subst hm; rfl
+    · split at hm <;> simp at hm; subst hm; rfl
+  | chg k v a r => simp [step, hidle] at h1
+  | ret => simp [step, hidle] at h1
+  | keys ks => simp only [step] at h1; split at h1 <;> simp at h1; subst h1; exact absurd hidle hb
+  | vals vs => simp only [step] at h1; split at h1 <;> simp at h1; subst h1; exact absurd hidle hb
+
+theorem live_of_run_aux (s : St) (o : Obs) (s1 : St) (hl : s.live = true) (h1 : step s o = some s1) :
+    s1.live = true := by
+  cases o <;> simp only [step] at h1
+  case chg => 
+    split at h1
+    · split at h1 <;> simp at h1; subst h1; exact hl
+    · simp at h1
+  case ret =>
+    split at h1
+    · split at h1 <;> simp at h1; subst h1; exact hl
+    · simp at h1
+  all_goals (split at h1 <;> simp at h1; subst h1; first | rfl | exact hl)
+
+/-- **replay_notifications** (model level, any arrival order the model accepts): if a call line takes
+the idle state `s` to `s1`, and the notifications `ns` followed by `ret` are accepted from `s1`,
+ending in `s2`, then replaying `ns` on the old contents gives the new contents. -/
+theorem replay_notifications_run (s s1 s2 : St) (o : Obs) (ns : List Note) (hi : Inv s)
+    (hl : s.live = true) (hidle : s.busy = none) (hb : s1.busy ≠ none)
+    (h1 : step s o = some s1) (h2 : model.run s1 (ns.map Note.toObs ++ [.ret]) = some s2) :
+    look (replay ns s.vals) = look s2.vals ∧ NodupKeys (replay ns s.vals) ∧ NodupKeys s2.vals := by
+  let ms0 : UniqM := { live := true, mode := s.mode, cur := s.vals, call := none }
+  have hR0 : Rel s ms0 := ⟨hl.symm, hi, fun _ => ⟨rfl, hi.nodup, by rw [hidle]; exact ⟨rfl, rfl⟩⟩⟩
+  obtain ⟨ms1, hm1, hR1⟩ := sim_step s o s1 ms0 hR0 h1
+  have hc1 : ms1.cur = s.vals := call_keeps_cur s o s1 ms0 ms1 hidle hb h1 hm1
+  obtain ⟨s1', hra, hrb⟩ := model.run_prefix s1 s2 _ _ h2
+  obtain ⟨ms1', hma, hRa⟩ := sim_run s1 ms1 _ s1' hR1 hra
+  have hl1 : ms1.live = true := by rw [hR1.1]; exact live_of_run_aux s o s1 hl h1
+  obtain ⟨hcur, hl1'⟩ := mon_run_notes ms1 ms1' ns hl1 hma
+  obtain ⟨ms2, hm2, hR2⟩ := sim_run s1' ms1' _ s2 hRa hrb
+  -- the final `ret`
+  simp only [ObsMonitor.run] at hm2
+  cases hst : monC20Unique.step ms1' .ret with
+  | none => simp [hst] at hm2
+  | some m =>
+    simp [hst] at hm2; subst hm2
+    have hcur2 : m.cur = ms1'.cur := by
+      simp only [monC20Unique, hl1', Bool.not_true, Bool.false_eq_true, if_false] at hst
+      split at hst
+      · split at hst <;> simp at hst; subst hst; rfl
+      · simp at hst
+    obtain ⟨hlv, hi2, hrest⟩ := hR2
+    have hl2 : s2.live = true := by rw [← hlv]; 
+                                    simp only [monC20Unique, hl1', Bool.not_true, Bool.false_eq_true, if_false] at hst
+                                    split at hst
+                                    · split at hst <;> simp at hst; subst hst; rfl
+                                    · simp at hst
+    obtain ⟨_, hnd, hbz⟩ := hrest hl2
+    have hidle2 : s2.busy = none := by
+      simp only [OLTS.run] at hrb
+      cases hs : model.step s1' .ret with
+      | none => simp [hs] at hrb
+      | some x =>
+        simp [hs] at hrb; subst hrb
+        simp only [model, detModel, step] at hs
+        split at hs
+        · split at hs <;> simp at hs; subst hs; rfl
+        · simp at hs
+    rw [hidle2] at hbz
+    rw [hcur2, hcur, hc1] at hbz hnd
+    exact ⟨hbz.2, hnd, hi2.nodup⟩
 
 end UtilModel.Seq.Unique
